@@ -17,6 +17,7 @@ def build(ub, algebra_text):
     ub.emit_item(TS, "struct", "State", "#[derive(PartialEq, Eq, Structural)]")
     ub.out(post)
     ub.emit_fn(NODES, "is_symbol", "stub", impl="impl Expr")
+    ub.emit_fn(TS, "is_const", "stub", impl="impl State", spec_key="State::is_const")   # Option::map with a closure: assumed, pinned
     ub.emit_fn(ANA, "cone_of_influence_impl", "verify",
                cfg={"receivers": {"ctx": "node"}, "let_chains": True, "for_each_child": True, "no_canary": False,
                     "replace": [["let mut out = vec![];", "let mut out: Vec<ExprRef> = vec![];"]]})
